@@ -8,7 +8,7 @@ import (
 // c18Depth: number of pointer/slice/map indirections populated by SymValue.
 func c18Depth() int {
 	if v.Tier() > 0 {
-		return 4
+		return 6
 	}
-	return 3
+	return 4
 }
